@@ -6,7 +6,7 @@ set -e
 cd "$(dirname "$0")"
 mkdir -p evidence replays work
 cd spec
-for m in MBCore MBProps MBServer MBPair MBPairCfg Classify TraceCheck TracePair DbFiles DbFilesMC FilesTrace; do
+for m in MBCore MBProps MBServer MBPair MBPairCfg Classify ClassifyDoc TraceCheck TracePair DbFiles DbFilesMC FilesTrace; do
   java -cp /opt/veriftools/tla/tla2tools.jar:/opt/veriftools/tla/CommunityModules-deps.jar tla2sany.SANY $m.tla > ../work/sany_$m.log 2>&1 || { cat ../work/sany_$m.log; exit 1; }
 done
 echo "setup ok"
